@@ -11,8 +11,8 @@ from harness import zones as Z
 
 ID = "C12"
 BACKENDS = ("py", "rs")
-GEN_MODULES = ()
-MIN_THEOREMS = 38
+GEN_MODULES = ("StartOf",)
+MIN_THEOREMS = 47
 US = D.US
 DAY = 86400 * US
 YMAX = Z.YMAX_QUICK
